@@ -24,6 +24,10 @@ type objectValidator struct {
 	// name.
 	rootSchema      schema.Schema
 	lastFoundKeyLex lexeme.LexEvent
+
+	// shortcutKeys for every property which key shortcuts admit: the shortcuts
+	// whose entry accepted its value.
+	shortcutKeys [][]string
 }
 
 func newObjectValidator(node schema.Node, parent validator, rootSchema schema.Schema) *objectValidator {
@@ -80,6 +84,7 @@ func (v *objectValidator) feed(jsonLexeme lexeme.LexEvent) ([]validator, bool) {
 		return v.feedObjectValueBegin()
 
 	case lexeme.ObjectEnd:
+		v.deleteRequiredShortcuts()
 		if len(v.requiredKeys) != 0 {
 			panic(errors.Format(errors.ErrRequiredKeyNotFound, v.requiredKeysString()))
 		}
@@ -106,11 +111,17 @@ func (v *objectValidator) feedObjectValueBegin() ([]validator, bool) {
 		// child node not found on schema object
 		// Several key shortcuts may admit the key: the value has to fit the
 		// entry of one of them, like the alternatives of the "or" rule.
+		// A required shortcut is found when a property stands under its entry:
+		// the key is admitted and the value fits. Which entries the value fits is
+		// known at the end of the value (shortcutEntry).
 		var list []validator
 		for _, key := range v.validateTypeRules(objectNode, v.lastFoundKeyLex) {
 			if child, ok := objectNode.Child(key, true); ok {
-				delete(v.requiredKeys, key)
-				list = append(list, NodeValidatorList(child, v.rootSchema, v)...)
+				if len(list) == 0 {
+					v.shortcutKeys = append(v.shortcutKeys, nil)
+				}
+				entry := &shortcutEntry{owner: v, parent_: v, shortcut: key, property: len(v.shortcutKeys) - 1}
+				list = append(list, NodeValidatorList(child, v.rootSchema, entry)...)
 			}
 		}
 		if len(list) != 0 {
@@ -125,6 +136,80 @@ func (v *objectValidator) feedObjectValueBegin() ([]validator, bool) {
 		v.lastFoundKeyLex,
 		errors.Format(errors.ErrSchemaDoesNotSupportKey, v.lastFoundKeyLex.Value().Unquote().String())),
 	)
+}
+
+// deleteRequiredShortcuts strikes off the required key shortcuts which have a
+// property of their own: every one of them needs a different property (a key
+// which two shortcuts admit, with a value which fits both entries, stands for
+// one of them). The largest assignment is found with augmenting paths.
+func (v *objectValidator) deleteRequiredShortcuts() {
+	if len(v.shortcutKeys) == 0 {
+		return
+	}
+	owner := make([]string, len(v.shortcutKeys)) // property -> the shortcut it stands for
+	var assign func(shortcut string, seen []bool) bool
+	assign = func(shortcut string, seen []bool) bool {
+		for p, fits := range v.shortcutKeys {
+			if seen[p] || !containsString(fits, shortcut) {
+				continue
+			}
+			seen[p] = true
+			if owner[p] == "" || assign(owner[p], seen) {
+				owner[p] = shortcut
+				return true
+			}
+		}
+		return false
+	}
+	// In the order of the schema: the error names the same shortcut every time.
+	required := make([]string, 0, len(v.requiredKeys))
+	for k := range v.requiredKeys {
+		required = append(required, k)
+	}
+	sort.Slice(required, func(i, j int) bool {
+		return v.requiredKeys[required[i]] < v.requiredKeys[required[j]]
+	})
+	for _, k := range required {
+		if assign(k, make([]bool, len(v.shortcutKeys))) {
+			delete(v.requiredKeys, k)
+		}
+	}
+}
+
+func containsString(ss []string, s string) bool {
+	for _, x := range ss {
+		if x == s {
+			return true
+		}
+	}
+	return false
+}
+
+// shortcutEntry stands between the object and the validators of the entry of a
+// key shortcut: the value which they accept goes on here, at the end of the
+// value, and the object learns which entries the value of the property fits.
+type shortcutEntry struct {
+	owner    *objectValidator
+	parent_  validator
+	shortcut string
+	property int
+}
+
+func (e *shortcutEntry) parent() validator { return e.parent_ }
+
+func (e *shortcutEntry) setParent(parent validator) { e.parent_ = parent }
+
+func (e *shortcutEntry) node() schema.Node { return e.owner.node_ }
+
+func (e *shortcutEntry) feed(jsonLexeme lexeme.LexEvent) ([]validator, bool) {
+	if jsonLexeme.Type() != lexeme.ObjectValueEnd {
+		panic(errors.ErrUnexpectedLexInObjectValidator)
+	}
+	if !containsString(e.owner.shortcutKeys[e.property], e.shortcut) {
+		e.owner.shortcutKeys[e.property] = append(e.owner.shortcutKeys[e.property], e.shortcut)
+	}
+	// The object takes no notice of the end of a value.
+	return nil, true
 }
 
 func (v objectValidator) requiredKeysString() string {
